@@ -134,7 +134,7 @@ def main():
     rundir = os.path.join(WORK, "run", pid)
     os.makedirs(rundir, exist_ok=True)
     hev = os.path.join(rundir, "harness-evidence.json")
-    if os.path.exists(hev):
+    if os.path.exists(hev) and not args.replay:
         os.remove(hev)
 
     gen_broken = None  # (module, lean error) when a generated obligation no longer builds
@@ -216,6 +216,8 @@ def main():
     if (rc == 1) != bool(violations or gen_broken):
         log("harness exit code and VIOLATION lines disagree"); return 2
 
+    if args.replay:
+        return rc
     # 6. evidence
     try:
         ev = json.load(open(hev))
